@@ -18,6 +18,7 @@
       Pof F V = −∂F/∂V  (`deriv`),        Aof F V = V ∂²F/∂V² − Pof F V  (`deriv (deriv F)`)
 -/
 import CijProofs.Lemmas.NonShearCalculus
+import CijProofs.Lemmas.NonShearSource
 
 namespace Cij.C01
 
@@ -220,5 +221,39 @@ example : zeroPointLongAt 1 2 1 (mgLong (sliceOf Sx 1 (1/3) (1/3) 0)) (freqOf Sx
   rw [zeroPointLong_eq 1 2 Sx [2] 1 (1/3) (1/3) 0 (by norm_num) (by simp [Sx]) (by simp)]
   simp [Azp, Pzp, wsum, dropΓ, List.replicate, azp, pzp, invMode]
   norm_num
+
+/-! #### the model IS the source: bodies re-extracted from nonshear.py on this run
+
+`tools/gen_tables.py` parses the bodies of `zero_point_contribution`, `thermal_contribution`, `value_isothermal` (both
+classes), the `mode_gamma` wiring and the return expressions of `Q1`, `Q2` from the working tree into expression trees
+(`Generated.ns*`, `Generated.mgWiring*`, `Generated.q1Expr/q2Expr`).  The model functions about which everything above is
+proved are *definitionally* those trees (for every scalar type — `Lemmas/NonShearSource.lean`, by `rfl`); here the
+statement at ℝ.  A changed sign, index or factor in those Python bodies makes these theorems fail to check. -/
+
+open Cij.NSExpr in
+theorem c01_model_is_source (c : Consts ℝ) (w : List ℝ) (T P cv : ℝ) (s : VolSlice ℝ) (g : ModeGamma ℝ) (a b d e : ℝ) :
+    zeroPointLongAt c.h c.na s.V g s.freq w = evalBody (envAt c w T P cv s g a b d e) Generated.nsZpLong ∧
+    zeroPointOffAt c.h c.na s.V g s.freq w = evalBody (envAt c w T P cv s g a b d e) Generated.nsZpOff ∧
+    thermalLongAt c.k c.hdk c.na T s.V g s.freq w = evalBody (envAt c w T P cv s g a b d e) Generated.nsThLong ∧
+    thermalOffAt c.k c.hdk c.na T s.V g s.freq w = evalBody (envAt c w T P cv s g a b d e) Generated.nsThOff ∧
+    valueIsothermalLongAt c w T s = evalBody (envAt c w T P cv s (mgLong s)
+        (zeroPointLongAt c.h c.na s.V (mgLong s) s.freq w) (thermalLongAt c.k c.hdk c.na T s.V (mgLong s) s.freq w) d e)
+        Generated.nsIsoLong ∧
+    valueIsothermalOffAt c w T P s = evalBody (envAt c w T P cv s (mgOff s)
+        (zeroPointOffAt c.h c.na s.V (mgOff s) s.freq w) (thermalOffAt c.k c.hdk c.na T s.V (mgOff s) s.freq w) d e)
+        Generated.nsIsoOff :=
+  ⟨rfl, rfl, rfl, rfl, rfl, rfl⟩
+
+theorem c01_mode_gamma_wiring_is_source :
+    Generated.mgWiringLong = [([0], 0), ([1, 0], 1), ([1, 1], 1), ([2], 2)] ∧
+    Generated.mgWiringOff = [([0], 0), ([1, 0], 1), ([1, 1], 1), ([2], 2)] :=
+  Cij.NSExpr.modeGamma_wiring_is_source
+
+/-- the model's Bose factors are the translated `Q1`, `Q2` return expressions -/
+theorem c01_q_is_source (x : ℝ) :
+    q1 x = Generated.q1Expr.eval Real.exp x ∧ q2 x = Generated.q2Expr.eval Real.exp x := by
+  constructor
+  · simp [q1, Generated.q1Expr, QExpr.eval]
+  · simp [q2, Generated.q2Expr, QExpr.eval, List.replicate]
 
 end Cij.C01
